@@ -862,9 +862,10 @@ def post_cancel(w: World, snap: dict[str, Any], info: dict[str, Any]) -> tuple[s
     cseq = next((r["seq"] for r in aud if r["tbl"] == "cancel" and str(r["new"]) == "1"), None)
     if cseq is None:
         live = [s_ for s_ in getattr(w, "cancel_seen", []) if s_ is not None and s_ not in COMPLETE]
-        if live:
-            # a CancelWorkflow was handled while the workflow was live, yet the cancel flag never became durable:
-            # nothing stops tasks from starting afterwards
+        if live and (snap["workflow"] == "CANCELED" or snap["workflow"] not in COMPLETE):
+            # a CancelWorkflow was handled while the workflow was live and the workflow did not finish on its own
+            # meanwhile (another worker may complete it between the poll and the handler's decision), yet the
+            # cancel flag never became durable: nothing stops tasks from starting afterwards
             return ("cancel_handled_but_flag_not_durable/%s" % live[0], {"workflow_status_when_handled": live[0], "final": snap["workflow"]})
         # the cancel request was never processed (injected after the end, or not injected)
         if info["injected"] and snap["workflow"] not in COMPLETE:
